@@ -256,12 +256,13 @@ impl Family for ScopeProduct {
 /// Alias chains with attributes.
 pub struct AliasChains;
 const ENDS: usize = 6;
+const USEPOS: u64 = 9;
 impl AliasChains {
     fn build(idx: u64) -> Program {
         let len = (idx % 4) as usize + 1;
         let end = ((idx / 4) % ENDS as u64) as usize;
-        let usepos = ((idx / 4 / ENDS as u64) % 3) as usize;
-        let spread = (idx / 4 / ENDS as u64 / 3) % 2 == 1;
+        let usepos = ((idx / 4 / ENDS as u64) % USEPOS) as usize;
+        let spread = (idx / 4 / ENDS as u64 / USEPOS) % 2 == 1;
         let end_t = match end {
             0 => MType::prim("int32"),
             1 => MType::named("::A::ES"),
@@ -289,7 +290,13 @@ impl AliasChains {
         let u = match usepos {
             0 => st("U", vec![MField::new("f", use_t.opt())]),
             1 => iface("U", vec![], vec![op("o", vec![MParam::new("p", use_t)], MRet::None)]),
-            _ => st("U", vec![MField::new("f", MType::seq(use_t))]),
+            2 => st("U", vec![MField::new("f", MType::seq(use_t))]),
+            3 => st("U", vec![MField::new("f", MType::dict(MType::prim("int32"), use_t))]),
+            4 => st("U", vec![MField::new("f", MType::result(use_t, MType::prim("string")))]),
+            5 => iface("U", vec![], vec![op("o", vec![], MRet::Single { tag: None, stream: false, ty: use_t })]),
+            6 => iface("U", vec![], vec![op("o", vec![], MRet::Tuple(vec![MParam::new("a", MType::prim("bool")), MParam::new("b", use_t)]))]),
+            7 => en("U", None, vec![MEnumerator { c: MCommon::new("V"), fields: Some(vec![MField::new("f", use_t)]), value: None }]),
+            _ => alias("U", use_t),
         };
         fb.defs.push(u);
         vec![fb, fa]
@@ -297,10 +304,10 @@ impl AliasChains {
 }
 impl Family for AliasChains {
     fn name(&self) -> String {
-        "alias-chains/length 1..4 x 6 final targets x 3 use positions x links in one or two modules, an attribute on every link and on the use site".into()
+        "alias-chains/length 1..4 x 6 final targets x 9 use positions (field, parameter, sequence element, dictionary value, result success, single return, tuple member, enumerator field, another alias) x links in one or two modules, an attribute on every link and on the use site".into()
     }
     fn len(&self) -> u64 {
-        4 * ENDS as u64 * 3 * 2 * 2
+        4 * ENDS as u64 * USEPOS * 2 * 2
     }
     fn describe(&self, idx: u64) -> Value {
         let p = Self::build(idx % (self.len() / 2));
